@@ -337,7 +337,7 @@ func main() {
 		emit("-- iterator.go (*Iterator).Next : refresh condition")
 		emit("def refreshDue (refreshRate count : Int) : Bool :=\n  %s\n", tr(s.Cond, env{"it.refreshRate": "refreshRate", "it.count": "count"}, "Iterator.Next"))
 		emit("def skeleton_IteratorNext : List String := %s\n", skeleton(f))
-		emit("def skeleton_IteratorRefresh : List String := %s\n", skeleton(fn("iterator.go", "*Iterator", "Refresh")))
+		emit("def skeleton_IteratorRefresh : List String := %s\n", skeletonWith(fn("iterator.go", "*Iterator", "Refresh"), `.*\.ptrToItem$`))
 		emit("def skeleton_IteratorSeek : List String := %s\n", skeleton(fn("iterator.go", "*Iterator", "Seek")))
 		emit("def skeleton_IteratorSeekFirst : List String := %s\n", skeleton(fn("iterator.go", "*Iterator", "SeekFirst")))
 		// comparator the snapshot iterator walks the store with (NewIterator and Refresh must agree)
@@ -478,7 +478,7 @@ func main() {
 		emit("-- nitro.go (*Nitro).Visitor : comparator and test of the end-of-shard check")
 		emit("def visitorEndCmp : CmpKind := %s", cmpKind(cc, "Visitor"))
 		emit("def visitorEndStop (c : Int) : Bool :=\n  %s\n", tr(cb, env{str(cc): "c"}, "Visitor"))
-		emit("def skeleton_Visitor : List String := %s\n", skeleton(f))
+		emit("def skeleton_Visitor : List String := %s\n", skeletonWith(f, `.*\.ptrToItem$|.*\.GetRangeSplitItems$|.*\.Seek$|.*\.SeekFirst$`))
 		// termination of the dispatcher: the work channel must hold every shard index without a receiver
 		// (a worker that hits a callback error stops receiving)
 		var chanCap, loopBound string
